@@ -184,6 +184,8 @@ def i3(ctx):
             if t in crate.bodies and depth < 3 and lk & crate.reachable_from([t], resolve_traits=False):
                 callee = crate.bodies[t]
                 inner = key_fn_of(callee, depth + 1)
+                while isinstance(inner, tuple) and inner[0] in ("field", "variant") and len(inner) > 1:
+                    inner = strip_role(inner[1])      # (`&t.0` of a pair parameter)
                 if inner is not None and inner[0] == "param":
                     pi = callee.param_index(inner[1])
                     return strip_role(b.role_of_operand(c.args[pi - 1]))
@@ -201,8 +203,13 @@ def i3(ctx):
             t = C.unwrap_delegation(crate, crate.bodies[t]).id
         return t
 
-    ka = key_fn_of(add)
-    kl = key_fn_of(lookup)
+    def peel(r):
+        # the key handed over as a component of the (shape, bijection) pair the key function returned (`&t.0`, `&shape` after a `let (shape, bij) = ..`)
+        while isinstance(r, tuple) and r[0] in ("field", "variant") and len(r) > 1:
+            r = strip_role(r[1])
+        return r
+    ka = peel(key_fn_of(add))
+    kl = peel(key_fn_of(lookup))
     ta, tl = resolve(add, ka), resolve(lookup, kl)
     ctx.check(ta is not None and ta == tl, "same-key-function", "add and lookup both key the hashcons by %s" % (C.short(ta) if ta else None),
               "add keys the hashcons by %s (%s) but lookup by %s (%s): lookup would miss what add inserted" % (role_str(ka), ta, role_str(kl), tl), where_of(add))
@@ -230,6 +237,14 @@ def i4(ctx):
         at = d.atoms_of_local(b, 0)
         fields = set(mir.atoms_fields(at))
         ok_slots = (C.ECLASS, "slots") in fields
+        if not ok_slots:
+            # in-place form: `for z in out.keys() { if !class.slots.contains(&z) { out.remove(z); } }` — the result depends on the
+            # class's slot set through the guard of the removal, not through a value
+            for c in b.calls:
+                if c.callee and c.callee.name in ("remove", "retain") and not b.blocks[c.bb]["cleanup"] and "SlotMap" in (c.callee.impl_self or "") + b.local_ty(mir.op_place(c.args[0])["l"] if mir.op_place(c.args[0]) else 0):
+                    for e_, cond in C.conditions_at(b, c.bb):
+                        if cond[0] == "false" and len(cond) > 1 and role_mentions_call(cond[1], "contains") and role_mentions_field(cond[1], "slots"):
+                            ok_slots = True
         ctx.check(ok_slots, "filtered-by-class-slots:" + C.fkey(b), "the returned invocation depends on EClass.slots (redundant slots are filtered out)",
                   "the invocation returned by %s does not depend on the found class's slot set: redundant slots of the stored e-node leak into the AppliedId" % C.short(lid), where_of(b))
         ok_nodes = (C.ECLASS, "nodes") in fields
